@@ -6,35 +6,10 @@ use serde::forward_to_deserialize_any;
 include!("serde_mocks.rs");
 use mocks::*;
 
-/// Value::deserialize(d).serialize(s): the serializer receives exactly the event sequence the
-/// deserializer produced (kinds, payloads, element / key / value order, size hints), checked on the fly by
-/// the mocks.  One level of nesting, <= 2 elements / 1 entry (bounded).
-fn value_roundtrip(depth: u8) {
-	unsafe { DE_MAY_FAIL = false; }
-	match Value::deserialize(MockDe { depth }) {
-		Err(_) => { assert!(false, "deserializer failures are switched off in this harness"); }
-		Ok(v) => {
-			assert!(first() == 0);
-			let produced = unsafe { DE_POS };
-			let r = v.serialize(MockSer);
-			match r {
-				Ok(()) => { assert!(first() == 0); assert!(unsafe { SER_POS } == produced, "every event reached the serializer"); kani::cover!(produced >= 6, "a full collection was replayed"); }
-				Err(s) => { assert!(first() == 2 && !s.synthetic && s.id == unsafe { FIRST_ID }, "serializer's own error is returned unchanged"); kani::cover!(unsafe { SER_POS } >= 2); }
-			}
-			assert!(unsafe { SER_POS } <= produced);
-			// a Value with a symbolic variant must not be dropped under CBMC (recursive drop glue): forget it
-			std::mem::forget(v);
-		}
-	}
-}
-
-#[kani::proof]
-#[kani::unwind(4)]
-fn value_event_fidelity_depth1() { value_roundtrip(1); }
-
-#[kani::proof]
-#[kani::unwind(4)]
-fn value_event_fidelity_depth2() { value_roundtrip(2); }
+// NOTE: composite fidelity of transcode::Value (sequence order, key/value alternation through Vec<(Value, Value)>)
+// is NOT under contract: Value::deserialize of even a one-element sequence exceeds CBMC's reach (recursive
+// Deserialize through PhantomData seeds + Vec<Value> growth: > 200 s / > 7 GB for the shape [bool]).  The scalar
+// contract below is complete; the composite obligation is listed as not covered in the evidence.
 
 /// A deserializer that presents exactly one scalar through a chosen visit_* method.
 struct ScalarDe<'a> { which: u8, bits: u128, text: &'a str, raw: &'a [u8] }
@@ -93,3 +68,4 @@ fn value_scalar_types_and_bits_kept() {
 	}
 	kani::cover!(which == 13); kani::cover!(which == 11); kani::cover!(which == 19); kani::cover!(which == 17);
 }
+
